@@ -155,6 +155,8 @@ type ctx struct {
 	files map[string]*bufio.Writer
 	fh    []*os.File
 	args  []string
+	// attrConsts: when non-nil, attrNum may spell a number as a module constant AKn; the generator appends attrPrelude()
+	attrConsts map[int]bool
 }
 
 func newCtx(seed int64, tier, out string, n int) *ctx {
@@ -202,7 +204,42 @@ func (c *ctx) pick(xs ...string) string { return xs[c.rng.Intn(len(xs))] }
 func (c *ctx) chance(p float64) bool    { return c.rng.Float64() < p }
 
 // attrNum spells the non-negative attribute argument n as WGSL allows: decimal (mostly), with a `u` / `i` suffix, or hexadecimal.
+// attrPrelude: declarations of the module constants attrNum referred to (module-scope order is irrelevant in WGSL).
+func (c *ctx) attrPrelude() string {
+	ks := make([]int, 0, len(c.attrConsts))
+	for k := range c.attrConsts {
+		ks = append(ks, k)
+	}
+	sort.Ints(ks)
+	var b strings.Builder
+	for _, k := range ks {
+		if k%2 == 0 {
+			fmt.Fprintf(&b, "const AK%d = %d;\n", k, k)
+		} else {
+			fmt.Fprintf(&b, "const AK%d: u32 = %du;\n", k, k)
+		}
+	}
+	return b.String()
+}
+
+// attrNum: a spelling of the attribute argument n — the grammar takes a const-expression there, not only a literal.
 func (c *ctx) attrNum(n int) string {
+	if c.attrConsts != nil && c.chance(0.3) {
+		switch c.rng.Intn(5) {
+		case 0:
+			return fmt.Sprintf("(%d)", n)
+		case 1:
+			return fmt.Sprintf("%d + 0", n)
+		case 2:
+			return fmt.Sprintf("(%d * 2) / 2", n)
+		case 3:
+			c.attrConsts[n] = true
+			return fmt.Sprintf("AK%d", n)
+		default:
+			c.attrConsts[n+1] = true
+			return fmt.Sprintf("AK%d - 1", n+1)
+		}
+	}
 	switch r := c.rng.Intn(20); {
 	case r < 13:
 		return fmt.Sprintf("%d", n)
